@@ -107,6 +107,12 @@ func execute(k kase) (*fail, string) {
 
 // report re-confirms a disagreement five times before recording it.
 func report(r *core.Run, class string, k kase, f *fail) {
+	class = safe(class)
+	if r.Seen(class) >= 3 {
+		// the class is established (three confirmed cases are on record): count, do not re-confirm
+		r.CountOnly(class)
+		return
+	}
 	n := 0
 	for i := 0; i < 5; i++ {
 		if g, _ := execute(k); g != nil {
@@ -257,6 +263,7 @@ func run(r *core.Run) {
 	r.Assume("an integral float may read back as an int ('numbers compared numerically'); negative zero is exempt from the reprint comparison only, it must still read back numerically equal")
 	r.Assume("a reader 'accepts' a text iff it returns no error (fault-tolerant: an empty Errors list); trees are compared by type, payload, quote flag and children, never by position or formatting metadata")
 	r.Assume("layout = the separators between complete expressions and brackets; the gap between a prefix (' #' #^) and its operand is part of the text's identity, not layout; the empty separator is layout only next to a bracket; a glued comment only after a bracket")
+	r.Assume("whitespace = unicode.IsSpace, the class the unchanged scanner's AcceptSpace skips (enumerated from the Go unicode tables, not from the code under test); a comment runs to LF, so every comment separator ends in LF and a bare CR never ends a comment")
 	r.Assume("UNSPECIFIED: whether a hash-bang line is honoured after leading comments (ParseProgram documents 'potentially preceded by a hash-bang'): leading layout is not varied for sequences that start with #!")
 	r.Assume("UNSPECIFIED: non-finite floats, bytes, maps, vectors, functions (outside the statement's value set); unreadable symbol spellings (only reader agreement is checked)")
 	r.Assume("DOCUMENTED LIMIT: token.DefaultBufSize — one lexical item (token, comment, whitespace run) of 128 KiB or more may be rejected by the production reader; it may not be accepted with a different tree")
@@ -369,7 +376,8 @@ func run(r *core.Run) {
 				if len(toks) <= 3 {
 					lv = lvProduct
 				}
-				w.process(toks, &seqOpts{level: lv, frames: true, expect: c.expect(s), domain: "symctx:" + c.id, symbol: shape(s), symText: s})
+				w.process(toks, &seqOpts{level: lv, frames: true, expect: c.expect(s), domain: "symctx:" + c.id, symbol: shape(s), symText: s,
+					ws: len(toks) <= 3 && (thorough || len(s) <= 2)})
 			}
 		})
 	}
@@ -421,10 +429,17 @@ func run(r *core.Run) {
 	if thorough {
 		maxLen, fullLen, singlesLen = 6, 4, 5
 	}
+	wsLen := 3
+	if thorough {
+		wsLen = 4
+	}
+	r.Bound("T-tokens.whitespace_class", wsClass())
+	r.Bound("T-tokens.whitespace_separators_one_gap_at_a_time_up_to_len", wsLen)
+	r.Bound("T-tokens.whitespace_separators", sepNames[baseSeps:])
 	r.Bound("T-tokens.alphabet", tokTexts())
 	r.Bound("T-tokens.max_len", maxLen)
 	r.Bound("T-tokens.all_separator_assignments_up_to_len", fullLen)
-	r.Bound("T-tokens.separators", sepNames)
+	r.Bound("T-tokens.separators", sepNames[:baseSeps])
 	r.Bound("T-tokens.every_single_gap_change_up_to_len", singlesLen)
 	r.Bound("T-tokens.uniform_variants_beyond", "reference + compact + comment + newline + glued-comment/blank-line (length 6: reference + compact + comment)")
 	for _, z := range []string{"", " ", "\n", ";c", ";c\n", " ;c\n\n", "\n\n"} {
@@ -453,7 +468,7 @@ func run(r *core.Run) {
 			if n >= 6 {
 				nvar = 2 // compact and comment
 			}
-			w.process(w.seqTokens(n, i), &seqOpts{level: lv, frames: n <= singlesLen, domain: "tokens", nontriv: n <= 4, nvar: nvar})
+			w.process(w.seqTokens(n, i), &seqOpts{level: lv, frames: n <= singlesLen, domain: "tokens", nontriv: n <= 4, nvar: nvar, ws: n <= wsLen})
 		})
 	}
 	for n := 1; n <= maxLen && n <= 4; n++ {
@@ -479,7 +494,7 @@ func run(r *core.Run) {
 			if !ext {
 				return // already explored over the base alphabet
 			}
-			w.process(toks, &seqOpts{level: lvProduct, frames: true, domain: "tokens-ext", nontriv: true})
+			w.process(toks, &seqOpts{level: lvProduct, frames: true, domain: "tokens-ext", nontriv: true, ws: n <= 2})
 		})
 	}
 
@@ -631,6 +646,14 @@ func depthOf(n *node) int {
 		}
 	}
 	return d + 1
+}
+
+func wsClass() []string {
+	out := make([]string, len(wsRunes))
+	for i, r := range wsRunes {
+		out[i] = fmt.Sprintf("U+%04X", r)
+	}
+	return out
 }
 
 func tokTexts() []string {
